@@ -243,3 +243,13 @@ Proof. exact wmts_address_exact_std_l. Qed.
 Theorem multi_grid_cache_extents :
   forall grids g e, In (g, e) (cache_tile_layers None None grids) -> e = grid_bbox g.
 Proof. exact cache_tile_layers_own_bbox_l. Qed.
+
+(* KML LatLonBox (kml.py _tile_bbox_to_wgs, T = the PROJ transformation to WGS84, any function): the box written next to a
+   link is the transformed rectangle of the tile for every grid that is not in SRS(900913) and, on mercator grids, for every
+   tile that does not end at the border of the mercator WORLD - in particular for all tiles of regional grids, also those
+   in the first and last row of the grid.  (At the world border the box is extended to the pole: existing behaviour.) *)
+Theorem kml_latlonbox_is_transformed_rectangle :
+  forall T merc world tenth pole src,
+    (merc = false \/ let '(_, s1, _, s3) := src in tenth <= Z.abs (s1 + world) /\ tenth <= Z.abs (s3 - world)) ->
+    kml_bbox_to_wgs T merc world tenth pole src = T src.
+Proof. exact kml_bbox_to_wgs_plain_l. Qed.
